@@ -19,6 +19,7 @@ func init() {
 			ro.countShape(r, "table.count-shape")
 			ro.acceptEffects(r, map[string]bool{"admit-guard": true, "ignore-false": true, "start-arg": true})
 			ro.dequeueLoop(r, map[string]bool{"admit-guard": true, "pop-on-start": true})
+			ro.dequeueIndependent(r, "dequeue.decision-is-current-admission")
 			ro.slotEnd(r, "slot-end")
 			ro.canceledSites(r, "canceled-site")
 			ro.noLostUpdate(r, "no-lost-update")
@@ -97,6 +98,8 @@ func init() {
 			ro.reloadModset(r, "reload-effects")
 			ro.defsImmutable(r, "definitions-immutable")
 			ro.dequeueIndependent(r, "dequeue-independent-of-new-definition")
+			checkEqualsCoverage(w, r)
+			checkReloadUsesEquals(w, r)
 			r.Floor("accept.snapshot", 4)
 			r.Floor("live-definition-reads", 6)
 			r.Floor("reload-effects", 1)
